@@ -236,7 +236,7 @@ def make_cases(tier, seed):
         nodes, ppn = LAYOUTS[i % len(LAYOUTS)]
         kind = i % 5
         if kind == 4:      # spread: several slots, few collisions (flush-all visits many slots in order)
-            bases, J, nops, hot = [3, 5, 9, 77, 1000, 1048575], 2, 24, 20
+            bases, J, nops, hot = [0, 3, 5, 9, 77, 1000, 1048575], 2, 24, 20
         elif kind == 3:    # two hot slots
             bases, J, nops, hot = [5, 6], 4, 40, 50
         else:              # one hot slot (the probe of DESIGN.md section 5)
